@@ -21,6 +21,11 @@ var c07Docs = []string{
 	"text[^1] \"q\" -- ...\n\n[^1]: note\n\nt\n: d\n",
 	"a[^1] b[^2] c[^1] d[^3]\n\n[^1]: one\n[^2]: two\n\n[^3]: three\n",
 	"x[^n] y[^n] z[^n]\n\n[^n]: n[^m]\n\n[^m]: m\n\n# h[^m]\n",
+	// soft breaks between wide, narrow, half-width and ambiguous characters (East Asian width
+	// classes are consulted by the CSS3-draft line break rule)
+	"ㄅ\nE\nㄆ\nF\nㄇ\nG\n㈠\nH\n㉠\nI\nｱ\nJ\n漢\nK\n한\nL\n。\nM\n",
+	"E\nㄅ\nF\nㄆ\nÅ\n㈠\n¡\n漢\nα\nｱ\nЖ\n한\n",
+	"ㄅㄆ\nㄇㄈ\nEF\nGH\n㈠㈡\n㉠㉡\n",
 	"```go\ncode\n```\n\n> quote\n> more\n\n1. a\n2. b\n",
 	"[ref]: /u 'T'\n\n[ref] ![i][ref] <http://x.y> <b>raw</b> &#x41; &Dcaron;\n",
 	"# h {#i .c data-x=y width=3}\n\n![a](/s){width=10 height=20 title=t lang=en}\n\n## h2 {lang=fr dir=ltr}\n",
@@ -143,7 +148,7 @@ func runC07(c *Ctx) {
 		return
 	}
 	cfgs := []Cfg{{Ext: "all", AutoID: true, Attr: true}, {Ext: "gfm", Attr: true, XHTML: true}, {Ext: "core"}, {Ext: "cjk", Unsafe: true}, {Ext: "footnote", AutoID: true}, {Ext: "typo", Attr: true},
-		{Ext: "footnote", FnPrefix: "p-"}, {Ext: "gfm+footnote", FnPrefix: "article1-", FnPrefixFunc: true, XHTML: true}, {Ext: "all", Opts: true, AutoID: true}}
+		{Ext: "footnote", FnPrefix: "p-"}, {Ext: "gfm+footnote", FnPrefix: "article1-", FnPrefixFunc: true, XHTML: true}, {Ext: "all", Opts: true, AutoID: true}, {Ext: "cjkcss3"}, {Ext: "cjkcss3", HardWraps: true, XHTML: true}}
 	rounds := 2
 	if !c.Quick() {
 		rounds = 12
